@@ -420,7 +420,7 @@ fn unescape(line: &[u8]) -> Vec<u8> {
 }
 
 pub fn e2e_session(rep: &mut Report, seed: u64, verbose: bool) -> bool {
-    let bin = "/verif/target/bin/release/koge29_h8-3069f_emulator";
+    let bin = &crate::runrig::real_binary();
     if !std::path::Path::new(bin).exists() {
         rep.inconclusive.push("real release binary not built".into());
         return false;
